@@ -41,6 +41,25 @@ Definition eval_sel (s : selector) (src : val) : option val :=
     end
   end.
 
+(* does executing an Assign plan on this source value access its l-value at all?  (for i := range src
+   { a(lhs[i]) } only panics on a short lhs when the loop body really indexes lhs[i]) *)
+Fixpoint touches (a : aplan) (src : val) {struct a} : bool :=
+  match a with
+  | ASet _ => true
+  | APtr _ | ASrcPtr _ | AMap _ _ => match src with VNil => false | _ => true end
+  | AList false _ _ => match src with VNil => false | _ => true end
+  | AList true _ a' => match src with VArr vs => existsb (touches a') vs | _ => true end
+  | AStruct fs =>
+      existsb (fun f => match f with
+                        | FSkip => false
+                        | FAssign sel g a' => match eval_sel sel src with
+                                              | Some s => negb (g && is_zero s) && touches a' s
+                                              | None => true
+                                              end
+                        end) fs
+  | AIfNotNil a' => match src with VNil => false | VPtr _ s => touches a' s | _ => true end
+  end.
+
 Section eval.
   Variable e : env.
   Variable M : table.
@@ -56,7 +75,8 @@ Section eval.
       | [], _ => Done (olds, st)
       | s :: sr, o :: orr => let* (v, st1) := ea a s o st in
                              let* (vs, st2) := each_assign a sr orr st1 in Done (v :: vs, st2)
-      | _ :: _, [] => Panicked                       (* index out of range *)
+      | s :: sr, [] => if touches a s then Panicked   (* index out of range *)
+                       else each_assign a sr [] st
       end.
 
     Fixpoint each_entry (k v : vplan) (kvs : list (val * val)) (st : N) : outcome (list (val * val) * N) :=
@@ -138,7 +158,7 @@ Section eval.
         | VArr vs =>
           match old with
           | VSlice id olds => let* (rs, st1) := each_assign (eval_a f) a' vs olds st in Done (VSlice id rs, st1)
-          | VNil => match vs with [] => Done (VNil, st) | _ => Panicked end
+          | VNil => let* (_, st1) := each_assign (eval_a f) a' vs [] st in Done (VNil, st1)
           | _ => Stuck
           end
         | _ => Stuck
